@@ -160,7 +160,7 @@ def parseOp (env : Env) (tgt : StdT.Target) (line : String) : Option (Option Op 
     else if op == "finish" then pure (some (.finish h), "")
     else if op == "flush" then (if env.cfg.std then pure (some (.flush h), "") else pure (none, "unsupported"))
     else if op == "drop" then pure (some (.drop h), "")
-    else if op == "debug" then pure (some (.debug h), "")
+    else if op == "debug" || op == "debugx" then pure (some (.debug h), "")
     else none
   | [op, sel, wd, a, b, c, d, x] =>
     if op == "hash" || op == "fhash" then do
